@@ -108,7 +108,7 @@ func genPage(rt *rapid.T, env *dataEnv, layoutRef string, k int, where map[strin
 
 func TestC06_Layouts(t *testing.T) {
 	c := harness.New(t, "C06", "layouts",
-		"template directories with a layout (1..4 distinct reserves at top level, inside @if(data flag), inside @each(data array) with loop.index, in attribute-like text, nested @if/@each/@if) and a page using it by '~name' or 'layouts/name', inserting a random subset of the reserves in random order, block form (markers, prints of data, @if/@each bodies) or expression form, with junk text, comments and blank lines between inserts; data maps with every kind; directory 't' or 'x/t', extensions .tw / .tw.html / .html. Expected output: the reference composition model (layout rendered with each reserve replaced by the reference rendering of its insert, page text outside inserts discarded). Non-trivial: >= 2 reserves, one nested in @if/@each, and a proper non-empty subset inserted. Distinct by hash of files + data.")
+		"template directories with a layout (1..4 distinct reserves at top level, inside @if(data flag), inside @each(data array) with loop.index, in attribute-like text, nested @if/@each/@if) and a page using it by '~name' or 'layouts/name' (names with dots, dashes and digits included), inserting a random subset of the reserves in random order, block form (markers, prints of data, @if/@each bodies) or expression form, with junk text, comments and blank lines between inserts; data maps with every kind; directory 't' or 'x/t', extensions .tw / .tw.html / .html. Expected output: the reference composition model (layout rendered with each reserve replaced by the reference rendering of its insert, page text outside inserts discarded). Non-trivial: >= 2 reserves, one nested in @if/@each, and a proper non-empty subset inserted. Distinct by hash of files + data.")
 	defer c.Finish()
 	in := interp()
 	runRapid(t, c, 4000, 45000, func(rt *rapid.T) {
@@ -116,9 +116,11 @@ func TestC06_Layouts(t *testing.T) {
 		k := rapid.IntRange(1, 4).Draw(rt, "nReserves")
 		layout, where := genLayoutFile(rt, k)
 		alias := rapid.Bool().Draw(rt, "alias")
-		lname, ref := "layouts/main", "layouts/main"
+		// a template name is any relative path: dots, dashes and digits in its last element included
+		base := rapid.SampledFrom([]string{"main", "main", "base.v2", "1.page", "a-b_c", "x.min", "site.layout"}).Draw(rt, "layoutName")
+		lname, ref := "layouts/"+base, "layouts/"+base
 		if alias {
-			ref = "~main"
+			ref = "~" + base
 		}
 		page, forms := genPage(rt, env, ref, k, where)
 		files := refint.Files{lname: layout, "pages/home": page}
